@@ -115,13 +115,16 @@ def search(ck, drv, tier, seed):
                     ctx = torch.arange(1, k + 1, dtype=torch.float32).reshape(k, 1)
                     ck.case(("base-rows", name, D, k, n), nontrivial=k > 1 and n > 1)
                     case = {"search": "base-rows", "object": name, "D": D, "rows": k, "n": n, "seed": seed}
-                    for meth in ("sample", "sample_and_log_prob"):
+                    for meth in ("sample", "sample_and_log_prob", "sample/batch_size=1", "sample/batch_size=2"):
                         torch.manual_seed(seed + k + n)
-                        r = attempt(getattr(d, meth), n, ctx)
+                        if "/" in meth:       # Flow.sample inherits the batching loop of Distribution.sample
+                            r = attempt(d.sample, n, ctx, int(meth[-1]))
+                        else:
+                            r = attempt(getattr(d, meth), n, ctx)
                         if r[0] != "ok":
                             ck.finding("base-rows:%s-fails:%s" % (meth, name), "%s %s" % (r[1], r[2]), case)
                             continue
-                        smp = r[1] if meth == "sample" else r[1][0]
+                        smp = r[1] if meth.startswith("sample") and meth != "sample_and_log_prob" else r[1][0]
                         if list(smp.shape) != [k, n, D]:
                             ck.finding("base-rows:shape:%s" % name, "%s -> %s" % (meth, list(smp.shape)), case)
                             continue
